@@ -297,8 +297,12 @@ class FindBound(_ast_util.NodeVisitor):
 def _is_default_escape(node):
     from mako import filters
 
-    while isinstance(node, _ast.Attribute):
-        node = node.value
+    if isinstance(node, _ast.Attribute):
+        # decode.<encoding>; an attribute of anything else ("x.upper")
+        # is an ordinary expression
+        while isinstance(node, _ast.Attribute):
+            node = node.value
+        return isinstance(node, _ast.Name) and node.id == "decode"
     return isinstance(node, _ast.Name) and node.id in filters.DEFAULT_ESCAPES
 
 
